@@ -8,7 +8,10 @@ Descriptor grammar (all JSON):
   frm  := {"ws": [wth], "tail": ["stop"] | ["deleg", frm] | ["exit", wth]}
   wth  := {"a": async?, "n": named?, "m": mgr}
   mgr  := {"t": "plain", "a": async?, "f": falsy?}
-        | {"t": "gen", "a": async?, "f": falsy?, "body": frm}
+        | {"t": "gen", "a": async?, "f": falsy?, "body": frm, "u": unentered?}
+          ("u": only as the manager of push(manager) / push_async_exit(manager): the manager object is
+           registered WITHOUT having been entered; its generator has a frame that has not started,
+           body must be the empty frame)
         | {"t": "stack", "a": async?, "f": falsy?, "cbs": [cb], "cur": cb?}
           ("cur": only on the stack of an ["exit", wth] tail = the stack is observed in the middle of
            its own exit: cur was registered last, has been popped and is running; cbs are pending)
@@ -185,6 +188,7 @@ class Env:
         self.stackscope = None
         self.names = {}        # manager index -> as-variable name
         self.plan = desc.get("plan", "single")
+        self.unwinding = False
         self.fault = False
         self.signal_obj = None
         self.signalled = False
@@ -206,7 +210,7 @@ class Env:
         m["_act"] = act
         self.mnodes.append(m)
         if m["t"] == "gen":
-            self._num_frm(m["body"], "agen" if m["a"] else "gen", on_path=act, body=True)
+            self._num_frm(m["body"], "agen" if m["a"] else "gen", on_path=act, body=True, unentered=bool(m.get("u")))
         elif m["t"] == "stack":
             for c in m["cbs"]:
                 if c.get("m") is not None:
@@ -216,12 +220,19 @@ class Env:
             if m.get("late") is not None and m["late"].get("m") is not None:
                 self._num_mgr(m["late"]["m"])
 
-    def _num_frm(self, f, fk, on_path, body):
+    def _num_frm(self, f, fk, on_path, body, unentered=False):
         f["_id"] = 10 + self.nfrm
         f["_fk"] = fk
         self.nfrm += 1
         fid = f["_id"]
         lines = [("async def" if fk in ("coro", "agen") else "def") + " f%d(E):" % fid]
+        if unentered:
+            # never entered: the generator only ever runs when the exit stack calls __exit__ on it
+            # during the final unwinding, where it must stop at once
+            assert body and not on_path and not f["ws"] and f["tail"][0] == "stop"
+            lines += ["    if E.unwinding:", "        return", "    yield"]
+            self.src.append("\n".join(lines))
+            return
         if fk == "fn":
             assert f["tail"][0] == "stop" and not body
         ind = 1
@@ -372,14 +383,16 @@ class Env:
                 st.enter_context(child)
                 registered = child
             elif k == "pushmgr":
-                type(child).__enter__(child)
+                if not cm.get("u"):
+                    type(child).__enter__(child)
                 st.push(child)
                 registered = child
             elif k == "entera":
                 drive(st.enter_async_context(child))
                 registered = child
             elif k == "pushamgr":
-                drive(type(child).__aenter__(child))
+                if not cm.get("u"):
+                    drive(type(child).__aenter__(child))
                 st.push_async_exit(child)
                 registered = child
             elif k in ("pushfn", "pushafn"):
@@ -418,6 +431,7 @@ class Env:
     def probe(self):
         if self.result is None:
             self.observe()
+            self.unwinding = True      # everything after the probe is the normal unwinding
 
     def _extract_abs(self, tag):
         st = self.stackscope.extract(self.root_obj)
@@ -480,6 +494,7 @@ class Env:
             self.notes += ["during-registration: " + n for n in notes]
             self.observations.append(self._extract_abs("after-registration")[1])
         finally:
+            self.unwinding = True
             self.go.set()
             self.done.set()
             th.join(20)
@@ -503,6 +518,7 @@ class Env:
         elif self.result is None:
             raise RuntimeError("probe was not reached")
         # unwind everything normally
+        self.unwinding = True
         for _ in range(5):
             if finished:
                 break
@@ -568,7 +584,8 @@ def _child_desc(obj):
     gen = getattr(obj, "gen", None)
     if isinstance(obj, contextlib._GeneratorContextManagerBase) and gen is not None:
         if hasattr(obj, "func"):
-            return None  # not entered: not produced by this harness
+            # not entered: func/args/kwds are still there and the description is the call
+            return "%s(%s)" % (_funcname(obj.func), ", ".join([repr(a) for a in obj.args] + ["%s=%r" % kv for kv in obj.kwds.items()]))
         return "%s(...)" % gen.__qualname__
     return None
 
